@@ -2,7 +2,7 @@
    Termination: every model function is a structural recursion on the input list (accepted by the kernel's guard
    checker), so the models terminate on every input; what is proved below is the absence of leaked Python exceptions. *)
 From Coq Require Import ZArith List Bool.
-Require Import PyIR.Base.Result PyIR.Engine.Match PyIR.Engine.Parse PyIR.Engine.NoCrash PyIR.Engine.ParseM PyIR.Engine.ParseMProps PyIR.Engine.ParseMD PyIR.Engine.ParseMDProps PyIR.Engine.ParseHT PyIR.Engine.ParseHTProps PyIR.Proto.Descriptor
+Require Import PyIR.Base.Result PyIR.Engine.Match PyIR.Engine.Parse PyIR.Engine.NoCrash PyIR.Engine.ParseM PyIR.Engine.ParseMProps PyIR.Engine.ParseMD PyIR.Engine.ParseMDProps PyIR.Engine.ParseHT PyIR.Engine.ParseHTProps PyIR.Engine.ParseB PyIR.Proto.Descriptor
                PyIR.Ctl.Dispatcher PyIR.Ctl.Instance PyIR.Ctl.NoCrash.
 Import ListNotations.
 Open Scope Z_scope.
@@ -25,6 +25,12 @@ Proof. exact parseMD_no_pyerr. Qed.
    _check_timing, any number of tuples *)
 Theorem C08_engine_never_leaks_tuple_middle : forall tol li lo mids t code, is_pyerr (parseHT tol li lo mids t code) = false.
 Proof. exact parseHT_no_pyerr. Qed.
+
+(* ... and the serial ("bit") branch for a table [mark, space] without a zero entry (GwtS, Lutron, PCTV): run-length lead-in / lead-out
+   splitting with floor division, run-length data loop *)
+Theorem C08_engine_never_leaks_serial_table : forall tol li lo mark space code, mark <> 0 -> space <> 0 ->
+  is_pyerr (parseB tol li lo mark space code) = false.
+Proof. exact parseB_no_pyerr. Qed.
 
 (* the model with middle tuples extends the model without: with none declared it is parseH, equation for equation *)
 Theorem C08_tuple_middle_model_extends_plain : forall tol li lo t code, parseHT tol li lo [] t code = parseH tol li lo t code.
@@ -63,6 +69,7 @@ Print Assumptions C08_engine_never_leaks.
 Print Assumptions C08_engine_never_leaks_any_pair_table.
 Print Assumptions C08_engine_never_leaks_positional_middle.
 Print Assumptions C08_engine_never_leaks_tuple_middle.
+Print Assumptions C08_engine_never_leaks_serial_table.
 Print Assumptions C08_tuple_middle_model_extends_plain.
 Print Assumptions C08_decoder_never_leaks.
 Print Assumptions C08_dispatcher_never_raises.
